@@ -520,7 +520,7 @@ fn run_api_case(case: &Value, scratch: &StdPath, dev2: Option<&StdPath>, devices
 
 // ------------------------------------------------------------------------------------------------
 // C04: histories.  The library is used in the order main.rs uses it:
-//   group_files ; [phase-1 operations] ; write_report ; [phase-2 operations] ;
+//   start_time := now ; group_files ; [phase-1 operations] ; write_report_at(start_time) ; [phase-2 operations] ;
 //   dedupe(groups, op, config with modified_before = header time stamp) ; run_script
 // Output:  <id> TAB <H line for the model> TAB F <nodes> ## S <parts> TAB <pre inventory> TAB <post inventory> TAB <info>
 
@@ -605,6 +605,8 @@ fn run_hist(case: &Value, scratch: &StdPath) -> String {
         if s(case, "format") == "json" {
             gc.format = fclones::config::OutputFormat::Json;
         }
+        // main.rs run_group: the time recorded in the report is taken BEFORE the scan starts
+        let start_time = chrono::Local::now();
         let groups = fclones::group_files(&gc, &log).map_err(|e| format!("group_files: {}", e.message))?;
         let t_read = now_ns();
         if groups.len() != 1 || groups[0].files.len() != paths.len() {
@@ -760,7 +762,7 @@ fn run_hist(case: &Value, scratch: &StdPath) -> String {
         apply(1, &mut ops_of, &mut share)?;
         sleep_ms(10);
         // ---- report
-        fclones::write_report(&gc, &log, &groups).map_err(|e| format!("write_report: {e}"))?;
+        fclones::write_report_at(&gc, &log, &groups, start_time).map_err(|e| format!("write_report: {e}"))?;
         let t_written = now_ns();
         sleep_ms(10);
         apply(2, &mut ops_of, &mut share)?;
